@@ -18,6 +18,7 @@ canon(text)           -> canonical, hashable form of a selector list *text* (wha
                          is kept.  Raises SelSyntax for text that is not a selector list by the CSS grammar.
 """
 import re
+import unicodedata
 
 COMBS = (' ', '>', '+', '~')
 
@@ -607,7 +608,11 @@ class _P:
                 anb = re.sub(r'[ \t\n\r\f]+', '', m.group(1))
                 of = None
                 if m.group(2) is not None:
-                    of = _P(m.group(2), self.strict).top()
+                    sub = _P(m.group(2), self.strict)
+                    try:
+                        of = sub.top()
+                    finally:
+                        self.idents += sub.idents
                 arg = ('nth', anb, of)
             else:
                 arg = ('raw', ' '.join(self.balanced().split()))
@@ -647,12 +652,12 @@ def lex_idents(text):
 def lex_class(raw):
     """Lexical class of one raw identifier / string (oracle side: a property of the input text only)."""
     body = raw[1:-1] if raw[:1] in ('"', "'") else raw
-    esc = re.findall(r'\\([0-9a-fA-F]{1,6})', body)
-    if any(ord(ch) > 0xffff for ch in body) or any(int(h, 16) > 0xffff for h in esc):
-        return 'astral'
-    if re.match(r'\\0{0,4}3[0-9](?![0-9a-fA-F])', body):
+    cps = [ord(ch) for ch in body] + [int(h, 16) for h in re.findall(r'\\([0-9a-fA-F]{1,6})', body)]
+    if any(0x80 <= cp <= 0x10ffff and not 0xd800 <= cp <= 0xdfff and unicodedata.category(chr(cp))[0] not in 'LN' for cp in cps):
+        return 'nonascii-symbol'      # a name character by CSS Syntax (>= U+0080) that is not a letter or digit
+    if re.match(r'\\(?:00003[0-9]|0{0,3}3[0-9](?![0-9a-fA-F]))', body):
         return 'leading-digit-escape'
-    if re.match(r'-\\0{0,4}3[0-9](?![0-9a-fA-F])', body):
+    if re.match(r'-\\(?:00003[0-9]|0{0,3}3[0-9](?![0-9a-fA-F]))', body):
         return 'dash-digit-escape'
     if body.startswith('\\'):
         return 'starts-with-escape'
@@ -723,8 +728,8 @@ def split_inspect(text):
 PLAIN_IDENTS = ['a', 'b', 'c', 'x', 'foo', 'a-b', '_x', 'a1', 'div', 'span', 'li']
 ODD_PLAIN = [('-x', 'ident-dash'), ('--x', 'ident-dashdash'), ('A', 'ident-upper'), ('Foo', 'ident-upper'),
              ('a_b', 'ident-underscore'), ('a--b', 'ident-dash'), ('x-', 'ident-dash'), ('_', 'ident-underscore')]
-NONASCII = ['é', 'ñu', '日本', 'ß', 'aé', 'Ω1', 'ø-x', 'é', 'ñu', 'üb', 'a·b']
-ASTRAL = ['😀', 'a😀', '𝒳']
+NONASCII = ['é', 'ñu', '日本', 'ß', 'aé', 'Ω1', 'ø-x', 'é', 'ñu', 'üb', '𝒳', 'a𝒳']
+SYMBOLS = ['😀', 'a😀', '★x', 'a·b', '©', 'a→b']       # non-ASCII, not letters or digits: still name characters in CSS
 ESC_SPECIAL = [('a\\.b', 'punct'), ('a\\:b', 'punct'), ('\\@x', 'punct'), ('a\\/b', 'punct'), ('a\\+b', 'punct'), ('\\#x', 'punct'),
                ('a\\,b', 'punct'), ('a\\>b', 'punct'), ('\\*', 'punct'), ('a\\[b\\]', 'bracket'), ('a\\(b\\)', 'paren'),
                ('a\\!', 'punct'), ('a\\%', 'punct'), ('a\\&b', 'punct'), ('\\~x', 'punct'), ('a\\=b', 'punct'), ('a\\|b', 'punct'),
@@ -734,24 +739,26 @@ ESC_SPECIAL = [('a\\.b', 'punct'), ('a\\:b', 'punct'), ('\\@x', 'punct'), ('a\\/
 ESC_DIGIT_LEAD = ['\\31 23', '\\31 x', '\\39 ', '\\30 a-b', '\\000031x', '\\0000322', '\\32\tx', '\\37 7']
 ESC_DASH_DIGIT = ['-\\31 x', '-\\32 ', '-\\0000339', '-\\31 -a']
 ESC_HEX_LETTER = ['\\61 b', 'a\\62 c', '\\000061b', 'x\\79 ', '\\41 b', 'a\\5f b']
-ESC_HEX_NONASCII = ['\\e9 ', '\\E9 x', 'a\\e9 ', '\\0000e9x', '\\3a9 x', '\\65e5 \\672c ', 'a\\df b']
-ESC_HEX_ASTRAL = ['\\1F600 ', 'a\\1f600 x', '\\01f600x']
+ESC_HEX_NONASCII = ['\\e9 ', '\\E9 x', 'a\\e9 ', '\\0000e9x', '\\3a9 x', '\\65e5 \\672c ', 'a\\df b', '\\1d4b3 ', 'a\\01d4b3x']
+ESC_HEX_SYMBOL = ['\\1F600 ', 'a\\1f600 x', '\\01f600x', '\\b7 x', 'a\\a9 ', '\\2605 ', 'a\\002192b']
 ESC_NONHEX_LETTER = ['\\g', '\\zoo', 'a\\xb', '\\G', 'a\\-b', '\\_x', 'a\\é']
 ESC_HEX_PUNCT = ['a\\2e b', 'a\\20 b', 'a\\40 b', '\\23 x', 'a\\3a b', 'a\\00002fb']
 
 
-def exotic_ident(rng, p_exotic=0.6):
+def exotic_ident(rng, p_exotic=0.6, allow_symbol=True):
     """-> (identifier text, [tags]).  Every hex escape is either six digits long or carries its terminating blank."""
     if rng.random() > p_exotic:
         return rng.choice(PLAIN_IDENTS), []
     r = rng.random()
+    if not allow_symbol and (0.22 <= r < 0.235 or 0.86 <= r < 0.89):
+        r = 0.15
     if r < 0.10:
         t, tag = rng.choice(ODD_PLAIN)
         return t, [tag]
     if r < 0.22:
         return rng.choice(NONASCII), ['nonascii']
     if r < 0.235:
-        return rng.choice(ASTRAL), ['nonascii-astral']
+        return rng.choice(SYMBOLS), ['nonascii-symbol']
     if r < 0.46:
         t, k = rng.choice(ESC_SPECIAL)
         return t, ['esc-special:' + k]
@@ -764,7 +771,7 @@ def exotic_ident(rng, p_exotic=0.6):
     if r < 0.86:
         return rng.choice(ESC_HEX_NONASCII), ['esc-hex-nonascii']
     if r < 0.89:
-        return rng.choice(ESC_HEX_ASTRAL), ['esc-hex-astral']
+        return rng.choice(ESC_HEX_SYMBOL), ['esc-hex-symbol']
     if r < 0.95:
         return rng.choice(ESC_NONHEX_LETTER), ['esc-nonhex-char']
     return rng.choice(ESC_HEX_PUNCT), ['esc-hex-punct']
@@ -781,12 +788,13 @@ ATTR_OPS = ['=', '~=', '|=', '^=', '$=', '*=']
 class Exotic:
     def __init__(self, rng, p_exotic=0.5, max_depth=2):
         self.rng, self.p_exotic, self.max_depth = rng, p_exotic, max_depth
+        self._depth = 0       # symbols (emoji, middle dot ...) are only generated at top level, never inside pseudo arguments
 
     def _at(self, tags, where):
         return [t + '@' + where for t in tags]
 
     def ident(self, where, p=None):
-        t, tags = exotic_ident(self.rng, self.p_exotic if p is None else p)
+        t, tags = exotic_ident(self.rng, self.p_exotic if p is None else p, allow_symbol=self._depth == 0)
         return t, self._at(tags, where)
 
     def ns_prefix(self):
@@ -915,6 +923,14 @@ class Exotic:
         return self.pseudo(depth)
 
     def compound_parts(self, depth=0, allow_pe=True):
+        save = self._depth
+        self._depth = depth
+        try:
+            return self._compound_parts(depth, allow_pe)
+        finally:
+            self._depth = save
+
+    def _compound_parts(self, depth, allow_pe):
         rng = self.rng
         parts = []
         if rng.random() < 0.5:
